@@ -26,6 +26,7 @@ BENIGN = [
     ("zone_file", "crates/dns-types/src/zones/deserialise.rs", "                        if apex_and_soa.is_some() {\n                            return Err(Error::MultipleSOA);\n                        }", "                        if let Some(_) = apex_and_soa {\n                            return Err(Error::MultipleSOA);\n                        }", "is_some as if-let"),
     ("zone_rr", "crates/dns-types/src/zones/deserialise.rs", "    if tokens.is_empty() {\n        return Err(Error::WrongLen { tokens });\n    }\n\n    if tokens.len() >= 4 {", "    if tokens.len() == 0 {\n        return Err(Error::WrongLen { tokens });\n    }\n\n    if tokens.len() > 3 {", "is_empty as len == 0, >= 4 as > 3"),
     ("zone_rr", "crates/dns-types/src/zones/deserialise.rs", "    if dotted_string == \"@\" {\n        if let Some(name) = origin {\n            Ok(name.clone())\n        } else {\n            Err(Error::ExpectedOrigin)\n        }", "    if dotted_string == \"@\" {\n        match origin {\n            Some(name) => Ok(name.clone()),\n            None => Err(Error::ExpectedOrigin),\n        }", "if-let as match"),
+    ("names_text", "crates/dns-types/src/protocol/types.rs", "            if label_chars.is_empty() && i != chunks.len() - 1 {", "            if label_chars.is_empty() && i != chunks.len() - 1 && i != 0 {", "early rejection relaxed where from_labels rejects anyway"),
     ("hosts_text", "crates/dns-types/src/hosts/deserialise.rs", "    if new_names.is_empty() {\n        Ok(None)\n    } else {\n        Ok(Some((address, new_names)))\n    }", "    if !new_names.is_empty() {\n        Ok(Some((address, new_names)))\n    } else {\n        Ok(None)\n    }", "negated condition, swapped branches"),
     ("hosts_text", "crates/dns-types/src/hosts/deserialise.rs", "        let mut hosts = Self::new();\n        for line in data.lines() {", "        let mut hosts = Self::new();\n        // one mapping line at a time\n        for line in data.lines() {", "added comment"),
     ("hosts_conv", "crates/dns-types/src/hosts/types.rs", "        let mut zone = Self::default();\n        for (name, address) in hosts.v4 {", "        let mut zone = Zone::default();\n        for (name, address) in hosts.v4 {", "Self as Zone"),
